@@ -84,6 +84,10 @@ func (h *hist) randomOpen(c *client) {
 	if p.claim != claimNull {
 		p.variant = "claim"
 	}
+	if p.claim == claimPrevious && h.chance(45) {
+		p.delegType = 1 + h.pick(2)
+		p.variant = "claim-with-delegation"
+	}
 	if p.claim == claimPrevious || p.claim == claimFH || p.claim == claimDelegCurFH || p.claim == claimDelegPrevFH {
 		// Prefer a file that this owner has open already.
 		var cands []*fakeLeaf
@@ -121,6 +125,9 @@ func (h *hist) randomOpen(c *client) {
 	}
 	if c.ver == 1 && h.chance(10) {
 		p.access |= nfsv4.OPEN4_SHARE_ACCESS_WANT_READ_DELEG
+	}
+	if p.claim == claimPrevious && h.chance(70) {
+		p.how = []int{howNoCreate, howUnchecked, howUncheckedTruncate}[h.pick(3)]
 	}
 	os := h.open(c, p)
 	if os != nil && c.ver == 0 && !os.o.confirmed && h.chance(85) {
